@@ -274,7 +274,9 @@ func (e *Envelope) Extract() interface{} {
 // current envelope contents, if possible.
 func (e *Envelope) Correct(opts ...schema.Option) (*Envelope, error) {
 	if e.Head != nil && len(e.Head.Stamps) > 0 {
-		opts = append(opts, head.WithHead(e.Head))
+		// never append in place: the caller's slice may have spare capacity
+		// and be in use by other corrections
+		opts = append(opts[:len(opts):len(opts)], head.WithHead(e.Head))
 	}
 
 	nd, err := e.Document.Clone()
